@@ -1130,6 +1130,26 @@ func (e *SpecEnv) call(n *ECall) (Val, error) {
 				t = types.Typ[types.Int]
 			}
 			return Val{T: c.eidx(e.idx(a), e.idx(b)), Typ: t}, nil
+		case "itercount":
+			// itercount(): how many keys the map range loop at whose head this invariant stands has produced
+			if e.at == nil || e.f == nil {
+				return Val{}, fmt.Errorf("itercount() is only meaningful in a loop invariant")
+			}
+			var nx *ssa.Next
+			for _, ins := range e.at.Instrs {
+				if n2, ok := ins.(*ssa.Next); ok {
+					nx = n2
+				}
+			}
+			if nx == nil || nx.IsString {
+				return Val{}, fmt.Errorf("itercount(): the loop is not a range over a map")
+			}
+			it, ok := e.f.vals[nx.Iter]
+			if !ok {
+				return Val{}, fmt.Errorf("itercount(): iterator not available")
+			}
+			c.heapSort["IterCount"] = "(Array Int Int)"
+			return Val{T: "(select " + c.heapGet(e.cur, "IterCount", "(Array Int Int)") + " " + it.T + ")", Typ: mathInt}, nil
 		case "strpos":
 			// strpos(): the byte position of the string range loop at whose head this invariant stands
 			if e.at == nil || e.f == nil {
